@@ -39,7 +39,10 @@ func genFault(t *rapid.T, kinds []string) *Fault {
 	return f
 }
 
-func TestC09(t *testing.T) { rapid.Check(t, propC09) }
+func TestC09(t *testing.T) {
+	enumerateC09(t)
+	rapid.Check(t, propC09)
+}
 
 func propC09(t *rapid.T) {
 	{
